@@ -55,7 +55,10 @@ impl FileStorage {
     }
 
     fn apply_wal(file: &mut File, wal: &mut WriteAheadLog) -> Result<(), DbError> {
-        for record in wal.records()? {
+        // The records are undo records: each restores what a region held
+        // before one write. They must be applied newest first so that a
+        // region written more than once ends with its oldest content.
+        for record in wal.records()?.into_iter().rev() {
             Self::apply_wal_record(file, record)?;
         }
 
@@ -162,6 +165,12 @@ impl StorageData for FileStorage {
     }
 
     fn write(&mut self, pos: u64, bytes: &[u8]) -> Result<(), DbError> {
+        // Nothing to write and nothing to undo. An empty undo record
+        // would be read back as "truncate the file to `pos`".
+        if bytes.is_empty() {
+            return Ok(());
+        }
+
         let current_len = self.len();
         let end = pos + bytes.len() as u64;
         let mut buffer = vec![0_u8; (std::cmp::min(current_len, end) - pos) as usize];
